@@ -54,7 +54,8 @@ def fmtPr (t : ParentReady.Tracker) (maxSlot : Nat) : String :=
   s!"root={t.root} pr={fmtList sts}"
 
 def sortPairs (l : List ((Nat × Nat) × (Nat × Nat))) : List ((Nat × Nat) × (Nat × Nat)) :=
-  let le (a b : (Nat × Nat) × (Nat × Nat)) : Bool := ParentReady.blkLe a.1 b.1
+  let le (a b : (Nat × Nat) × (Nat × Nat)) : Bool :=
+    if a.1 = b.1 then ParentReady.blkLe a.2 b.2 else ParentReady.blkLe a.1 b.1
   l.foldr (fun x acc =>
     let rec ins : List ((Nat × Nat) × (Nat × Nat)) → List ((Nat × Nat) × (Nat × Nat))
       | [] => [x]
